@@ -17,6 +17,9 @@ func init() {
 func runC06(c *Ctx) {
 	w := c.W
 	eff := newEffects(w)
+	checkActionsAtomic(c, eff)
+	// what is read is witnessed, merge commits included: the next commit sorts after it (shared with C05)
+	checkWitnessAll(c, "R5.3")
 	c.Doc("R6.1", "after a successful ref-moving call no object write, ref update or clock increment is reachable inside the write path; the hash given to UpdateRef is the result of the last commit write of the path (or the resolved remote head)")
 	c.Doc("R6.2", "in dag.merge the clock increment precedes the pack write, which precedes the ref update")
 	c.Doc("R6.3", "PersistedClock.Write replaces the clock file atomically (write elsewhere, rename into place); it must not truncate and rewrite the live file")
@@ -192,4 +195,90 @@ func refHashOK(fn *ssa.Function, h ssa.Value, at ssa.Instruction, depth int) (bo
 		return false, "the hash given to UpdateRef does not originate from a commit written (or resolved) on this path"
 	}
 	return true, "ref ← commit written last on this path (or remote head)"
+}
+
+// R6.4: one user-level action of the API publishes once. R6.5: a pull always merges.
+func checkActionsAtomic(c *Ctx, eff *effSummaries) {
+	w := c.W
+	c.Doc("R6.4", "every GraphQL mutation resolver moves entity refs at most once on any path (one user-level action = one commit = one ref update): no ref-moving call site is reachable from another one, so a crash cannot leave half of an action published")
+	c.Doc("R6.5", "every Pull function (cache, entity/dag, entities/bug, entities/identity) reaches MergeAll on every path from a successful fetch to a success return: repeating an interrupted pull completes it even when there is nothing left to download")
+	n := 0
+	for _, rm := range w.resolverMethods() {
+		if rm.Iface != "MutationResolver" || rm.Fn == nil {
+			continue
+		}
+		n++
+		c.seeFn(funcName(rm.Fn))
+		var sites []*Call
+		for _, cl := range Calls(rm.Fn) {
+			c.Sites++
+			for e := range eff.SiteEffects(cl) {
+				if effClass(e) == "REF" {
+					sites = append(sites, cl)
+					break
+				}
+			}
+		}
+		key := "Mutation." + rm.Method + ":publishes-once"
+		bad := ""
+		for _, a := range sites {
+			isOther := func(i ssa.Instruction) bool {
+				for _, b := range sites {
+					if b.Instr == i {
+						return true
+					}
+				}
+				return false
+			}
+			if found, _, at := pathAvoiding(rm.Fn, a.Instr, isOther, nil); found {
+				bad = fmt.Sprintf("after the ref update through %s at %s another one is reachable at %s: the action is published in two steps, a crash (or an error) between them leaves a state that is neither the old nor the new one, and repeating the action repeats its first half", a.Name, w.InstrPos(a.Instr), w.InstrPos(at))
+				break
+			}
+		}
+		if len(sites) == 0 {
+			c.Info("R6.4", key, w.FnPos(rm.Fn), "moves no entity ref")
+			continue
+		}
+		c.Check(bad == "", "R6.4", key, w.FnPos(rm.Fn), fmt.Sprintf("%d ref-moving site(s), none reachable from another", len(sites)), bad)
+	}
+	if n == 0 {
+		c.Violate("R6.4", "expected:MutationResolver-methods", "api/graphql/resolvers", "no mutation resolver found")
+	}
+	// R6.5
+	nPull := 0
+	for _, fn := range w.ModFns {
+		if isInstance(fn) || fn.Name() != "Pull" || len(fn.Blocks) == 0 || w.isTestHelper(fn) || fn.Parent() != nil {
+			continue
+		}
+		pk := fnPkgPath(fn)
+		if !(strings.HasSuffix(pk, "/cache") || strings.HasSuffix(pk, "/entity/dag") || strings.HasSuffix(pk, "/entities/bug") || strings.HasSuffix(pk, "/entities/identity")) {
+			continue
+		}
+		// wrappers that delegate to another Pull are covered by their callee
+		delegates := false
+		isMerge := func(i ssa.Instruction) bool {
+			ci, ok := i.(ssa.CallInstruction)
+			if !ok {
+				return false
+			}
+			nn, _ := callName(ci.Common())
+			return strings.HasSuffix(nn, ".MergeAll") || strings.HasSuffix(nn, "MergeAll")
+		}
+		for _, cl := range Calls(fn) {
+			if strings.HasSuffix(cl.Name, ".Pull") || cl.Name == "entity/dag.Pull" {
+				delegates = true
+			}
+		}
+		if delegates {
+			continue
+		}
+		nPull++
+		c.Sites++
+		c.seeFn(funcName(fn))
+		bad, p, _ := pathAvoiding(fn, nil, isSuccessReturn, isMerge)
+		c.Check(!bad, "R6.5", funcName(fn)+":always-merges", w.FnPos(fn), "every success return passes MergeAll", "a success return is reachable without merging what was fetched ("+blocksString(w, p)+"): a pull interrupted after its fetch is not completed by pulling again")
+	}
+	if nPull < 2 {
+		c.Violate("R6.5", "expected:pull-functions", "module", fmt.Sprintf("%d Pull functions found (reference 3)", nPull))
+	}
 }
